@@ -1,9 +1,9 @@
 package main
 
 import (
-	"go/token"
 	"fmt"
 	"go/ast"
+	"go/token"
 	"go/types"
 	"regexp"
 	"strings"
@@ -136,6 +136,37 @@ func ruleC07GuardedInsert(c *Ctx) {
 	c.verdictIf(found, rule, ih, "CREATE arm", ih.Decl.Pos(), "CREATE records are applied through the guarded insert-or-update method", "the CREATE arm does not go through the persister method that guards its insert")
 }
 
+var setTailRe = regexp.MustCompile(`(?i)\bset\s*$`)
+
+// sqlShapeOf renders a flattened statement with every operand as %v.
+func sqlShapeOf(pieces []sqlPiece) string {
+	var sb strings.Builder
+	for _, pc := range pieces {
+		if pc.expr != nil {
+			sb.WriteString("%v")
+		} else {
+			sb.WriteString(pc.lit)
+		}
+	}
+	return sb.String()
+}
+
+// sqlShapeOfCall: the shape of the statement given to queries.Raw somewhere inside e (a call chain such as
+// queries.Raw(...).ExecContext(...)).
+func sqlShapeOfCall(f *FuncInfo, e ast.Node) string {
+	out := ""
+	ast.Inspect(e, func(n ast.Node) bool {
+		if call, ok := n.(*ast.CallExpr); ok && len(call.Args) > 0 {
+			if fn, ok := calleeObj(f.Pkg.TypesInfo, call).(*types.Func); ok && fn.Name() == "Raw" && fn.Pkg() != nil && fn.Pkg().Path() == queriesPath {
+				out = sqlShapeOf(flattenSQL(f, call.Args[0], 0))
+				return false
+			}
+		}
+		return true
+	})
+	return out
+}
+
 var keyRewriteRe = regexp.MustCompile(`(?i)update\s+\S+\s+set\s+(\S+)\s*=\s*\?`)
 
 func ruleC07KeyRewrite(c *Ctx) {
@@ -153,26 +184,21 @@ func ruleC07KeyRewrite(c *Ctx) {
 			if !ok || fn.Name() != "Raw" || fn.Pkg() == nil || fn.Pkg().Path() != queriesPath || len(cs.Call.Args) == 0 {
 				continue
 			}
-			text := sqlTextOf(f, cs.Call.Args[0], 0)
-			if !keyRewriteRe.MatchString(text) {
+			pieces := flattenSQL(f, cs.Call.Args[0], 0)
+			if !keyRewriteRe.MatchString(sqlShapeOf(pieces)) {
 				continue
 			}
-			// is the first SET column the name column? The column is a Sprintf operand: models.HeaderColumns.Name
+			// is the first SET column the name column? The column is an operand of the statement text (a Sprintf
+			// operand or a concatenated value): models.HeaderColumns.Name
 			setsName := false
-			var queryExpr ast.Node = cs.Call.Args[0]
-			if o := objOfIdent(info, cs.Call.Args[0]); o != nil {
-				if st, _, _ := defOf(f, o); st != nil && len(st.Rhs) == 1 {
-					queryExpr = st.Rhs[0] // the statement text was hoisted into a local
+			for i, pc := range pieces {
+				if pc.expr == nil || i == 0 || pieces[i-1].expr != nil || !setTailRe.MatchString(pieces[i-1].lit) {
+					continue
+				}
+				if se, ok := ast.Unparen(pc.expr).(*ast.SelectorExpr); ok && (se.Sel.Name == "Name" || se.Sel.Name == "Linkname") {
+					setsName = true
 				}
 			}
-			ast.Inspect(queryExpr, func(m ast.Node) bool {
-				if call, ok := m.(*ast.CallExpr); ok && isPkgFunc(calleeObj(info, call), "fmt", "Sprintf") && len(call.Args) >= 3 {
-					if se, ok := ast.Unparen(call.Args[2]).(*ast.SelectorExpr); ok && (se.Sel.Name == "Name" || se.Sel.Name == "Linkname") {
-						setsName = true
-					}
-				}
-				return true
-			})
 			if !setsName {
 				continue
 			}
@@ -195,7 +221,7 @@ func ruleC07KeyRewrite(c *Ctx) {
 					// a lookup (One/Exists/headerExistsExact) or delete that mentions the destination name
 					if (fn2.Name() == "One" || fn2.Name() == "Exists" || fn2.Name() == "DeleteAll" || fn2.Name() == "Delete" || fn2.Name() == "headerExistsExact" || fn2.Name() == "ExecContext") && newName != nil && usesObj(info, call, newName) {
 						// ExecContext of the very same rewrite statement (the retry) is not a guard
-						if fn2.Name() == "ExecContext" && keyRewriteRe.MatchString(sqlTextOf(f, call, 0)) {
+						if fn2.Name() == "ExecContext" && keyRewriteRe.MatchString(sqlShapeOfCall(f, call)) {
 							continue
 						}
 						guard = true
